@@ -9,7 +9,7 @@ for d in preserving/R*/; do
   id=$(basename $d)
   [ -d $W ] || git -C /repo worktree add -q --detach $W HEAD || exit 2
   git -C $W checkout -q --detach $(git -C /repo rev-parse HEAD) && git -C $W checkout -q -- . && git -C $W clean -fdq -e target
-  git -C $W apply "$PWD/$d/patch.diff" || { echo "patch of $id does not apply"; bad=1; continue; }
+  git -C $W apply "$PWD/$d/patch.diff" 2>/dev/null || git -C $W apply --3way "$PWD/$d/patch.diff" >/dev/null 2>&1 || { echo "patch of $id does not apply"; bad=1; continue; }
   rm -f sim/target-scratch/.verif_repo
   out=$(tools/matrix.sh $W | sed "s/^wt-preserving/$id/")
   echo "$out"
